@@ -38,6 +38,7 @@ CONSTANTS
   EnvCancel,    \* the environment may cancel streaming callers
   EnvReadFail,  \* the environment may fail the client's transport read
   EnvStop,      \* the environment may stop the server
+  EnvSendFail,  \* the transport may refuse one write of a stream's SendMsg while the connection stays up
   EarlyReturn,  \* handlers may return before consuming what the caller sent
   AdvClient,    \* number of arbitrary envelopes an adversarial peer may send to the server (C12)
   AdvServer,    \* number of arbitrary envelopes an adversarial peer may send to the client (C13);
@@ -275,6 +276,7 @@ Terminal(c) == sres[c] # <<>> /\ sres[c][Len(sres[c])] \in {"eof", "err", "cance
 SChoose(c) ==
   /\ spc[c] = "run"
   /\ \/ nsent[c] < MaxC /\ ~closed[c] /\ ~Terminal(c) /\ sop' = [sop EXCEPT ![c] = "send"] /\ spc' = [spc EXCEPT ![c] = "opcheck"]
+     \/ EnvSendFail /\ nsent[c] < MaxC /\ ~closed[c] /\ ~Terminal(c) /\ sop' = [sop EXCEPT ![c] = "sendx"] /\ spc' = [spc EXCEPT ![c] = "opcheck"]
      \/ ~closed[c] /\ ~Terminal(c) /\ sop' = [sop EXCEPT ![c] = "close"] /\ spc' = [spc EXCEPT ![c] = "closew"]
      \* a well-behaved caller: it blocks in a receive before half-closing only if it can still give up
      \* (cancel); otherwise caller and handler could wait for each other by their own design
@@ -290,9 +292,9 @@ SOpCheck(c) ==
   /\ spc[c] = "opcheck" /\ prot[c] = Free
   /\ IF rdone[c]
        THEN /\ sres' = [sres EXCEPT ![c] = IF sop[c] = "recv" THEN Append(@, rterm[c]) ELSE @]
-            /\ nsent' = [nsent EXCEPT ![c] = IF sop[c] = "send" THEN MaxC ELSE @]   \* a failed send ends sending
+            /\ nsent' = [nsent EXCEPT ![c] = IF sop[c] \in {"send", "sendx"} THEN MaxC ELSE @]   \* a failed send ends sending
             /\ spc' = [spc EXCEPT ![c] = "run"]
-       ELSE /\ spc' = [spc EXCEPT ![c] = IF sop[c] = "recv" THEN "recvsel" ELSE "sendw"]
+       ELSE /\ spc' = [spc EXCEPT ![c] = IF sop[c] = "recv" THEN "recvsel" ELSE IF sop[c] = "sendx" THEN "sendxw" ELSE "sendw"]
             /\ UNCHANGED <<sres, nsent, advN>>
   /\ UNCHANGED <<c2s, s2c, nextId, idOf, muxLock, reg, respCh, respDone, rErr, mpc, mcur, cReadFailed, upc, ures,
                  sop, closed, cancelled, rpc, rcur, sctx, rdone, rterm, rChClosed, prot,
@@ -310,6 +312,43 @@ SSendWrite(c) ==
                  sop, closed, cancelled, sres, rpc, rcur, sctx, rdone, rterm, rChClosed, prot,
                  gotTrailer, srpc, srcur, srvLock, sreg, sch, hctx, hdoneSig, connCtx, wpc, wcur, wrpc, wrcur,
                  hpc, hrecv, hsentN, hres, hsawEOF, waitFor, sReadFailed, stopped, serveRet, advN>>
+
+\* rw.Write refused by the transport (the connection stays up): SendMsg calls cs.teardown(false), which
+\* unregisters the stream and cancels its context - two steps, so the read loop can run in between.
+\* D22: the context is cancelled FIRST (the read loop decides about RST_STREAM by looking at it).
+SSendRefused(c) ==
+  /\ spc[c] = "sendxw"
+  /\ nsent' = [nsent EXCEPT ![c] = MaxC + 1]     \* MaxC + 1 marks "a Send of this stream was refused" 
+  /\ spc' = [spc EXCEPT ![c] = "td1"]
+  /\ UNCHANGED <<c2s, s2c, nextId, idOf, muxLock, reg, respCh, respDone, rErr, mpc, mcur, cReadFailed, upc, ures,
+                 sop, closed, cancelled, sres, rpc, rcur, sctx, rdone, rterm, rChClosed, prot, gotTrailer, srpc,
+                 srcur, srvLock, sreg, sch, hctx, hdoneSig, connCtx, wpc, wcur, wrpc, wrcur, hpc, hrecv, hsentN,
+                 hres, hsawEOF, waitFor, sReadFailed, stopped, serveRet, advN>>
+
+TdUnregister(c) ==
+  /\ muxLock = Free
+  /\ reg' = reg \ {idOf[c]}
+  /\ respDone' = IF idOf[c] \in reg THEN respDone \cup {idOf[c]} ELSE respDone
+  /\ UNCHANGED sctx
+TdCancel(c) == sctx' = [sctx EXCEPT ![c] = TRUE] /\ UNCHANGED <<reg, respDone>>
+
+STeardown1(c) ==
+  /\ spc[c] = "td1"
+  /\ IF Fixed("D22") THEN TdCancel(c) ELSE TdUnregister(c)
+  /\ spc' = [spc EXCEPT ![c] = "td2"]
+  /\ UNCHANGED <<c2s, s2c, nextId, idOf, muxLock, respCh, rErr, mpc, mcur, cReadFailed, upc, ures, sop, nsent,
+                 closed, cancelled, sres, rpc, rcur, rdone, rterm, rChClosed, prot, gotTrailer, srpc, srcur,
+                 srvLock, sreg, sch, hctx, hdoneSig, connCtx, wpc, wcur, wrpc, wrcur, hpc, hrecv, hsentN, hres,
+                 hsawEOF, waitFor, sReadFailed, stopped, serveRet, advN>>
+
+STeardown2(c) ==
+  /\ spc[c] = "td2"
+  /\ IF Fixed("D22") THEN TdUnregister(c) ELSE TdCancel(c)
+  /\ spc' = [spc EXCEPT ![c] = "run"]
+  /\ UNCHANGED <<c2s, s2c, nextId, idOf, muxLock, respCh, rErr, mpc, mcur, cReadFailed, upc, ures, sop, nsent,
+                 closed, cancelled, sres, rpc, rcur, rdone, rterm, rChClosed, prot, gotTrailer, srpc, srcur,
+                 srvLock, sreg, sch, hctx, hdoneSig, connCtx, wpc, wcur, wrpc, wrcur, hpc, hrecv, hsentN, hres,
+                 hsawEOF, waitFor, sReadFailed, stopped, serveRet, advN>>
 
 SCloseWrite(c) ==
   /\ spc[c] = "closew"
@@ -733,7 +772,7 @@ Terminated == Finished /\ UNCHANGED vars
 Next ==
   \/ \E c \in Unaries : UCheck(c) \/ URegister(c) \/ UWrite(c) \/ UAwait(c) \/ UUnregister(c)
   \/ MuxRead \/ MuxLookup \/ MuxHandoff \/ MuxFail
-  \/ \E c \in Streams : \/ SCheck(c) \/ SRegister(c) \/ SOpen(c) \/ SChoose(c) \/ SOpCheck(c) \/ SSendWrite(c)
+  \/ \E c \in Streams : \/ SCheck(c) \/ SRegister(c) \/ SOpen(c) \/ SChoose(c) \/ SOpCheck(c) \/ SSendWrite(c) \/ SSendRefused(c) \/ STeardown1(c) \/ STeardown2(c)
                         \/ SCloseWrite(c) \/ SRecvCtx(c) \/ SRecvClosed(c)
                         \/ RlRead(c) \/ RlClassify(c) \/ RlHandoff(c) \/ RlExitLock(c) \/ RlExitRst(c)
                         \/ RlExitUnreg(c) \/ RlExitDone(c) \/ CallerCancel(c)
@@ -758,8 +797,10 @@ UniqueIds == \A a, b \in Calls : a # b /\ idOf[a] # NoId => idOf[a] # idOf[b]
 \* that did not cancel, on a live connection - and io.EOF is reported only then
 EofOnlyOnOk == AdvServer = 0 => \A c \in Streams : \A i \in DOMAIN sres[c] :
                   sres[c][i] = "eof" => idOf[c] # NoId /\ hres[idOf[c]] = "ok"
+\* (a stream torn down by its own refused Send reports that teardown's cancellation)
+SendRefused(c) == nsent[c] = MaxC + 1
 NoCancelAfterSuccess == \A c \in Streams : \A i \in DOMAIN sres[c] :
-                  sres[c][i] = "canceled" => cancelled[c]
+                  sres[c][i] = "canceled" => cancelled[c] \/ SendRefused(c)
 
 \* C06: the server's reset for a late message never precedes that stream's trailer on the wire
 ResetNotBeforeTrailer == (AdvServer = 0 /\ AdvClient = 0) =>
